@@ -276,19 +276,19 @@ theorem dot_lefts_shift (g : F) (t z dz πs : List F) (hz : z.length = t.length)
         rw [this]; ring
 
 theorem check_iff_defect [DecidableEq F] (vk : VK F) (c : Commitment F) (z : List F) (v : F)
-    (πs : List F) (h1 : vk.nv ≤ z.length) (h2 : vk.nv ≤ vk.gMaskRandom.length)
+    (πs : List F) (h1 : z.length = vk.nv) (h2 : vk.nv ≤ vk.gMaskRandom.length)
     (h3 : πs.length = vk.nv) :
     check vk c z v πs = .ok true ↔ defect vk c z v πs = 0 := by
   unfold check
-  rw [if_neg (by omega), if_neg (by omega)]
+  rw [if_neg (by omega), if_neg (by omega), if_neg (by omega)]
   simp
 
 theorem check_ok_decide [DecidableEq F] (vk : VK F) (c : Commitment F) (z : List F) (v : F)
-    (πs : List F) (h1 : vk.nv ≤ z.length) (h2 : vk.nv ≤ vk.gMaskRandom.length)
+    (πs : List F) (h1 : z.length = vk.nv) (h2 : vk.nv ≤ vk.gMaskRandom.length)
     (h3 : πs.length = vk.nv) :
     check vk c z v πs = .ok (decide (defect vk c z v πs = 0)) := by
   unfold check
-  rw [if_neg (by omega), if_neg (by omega)]
+  rw [if_neg (by omega), if_neg (by omega), if_neg (by omega)]
 
 /-- **Exact defect of the honest proof against any statement.**  For the key of trapdoor `t`, the
 honest proof `π` for `(evals, z)` and the statement (commitment `g·f̃(t) + dc`, point `z + dz`,
@@ -335,20 +335,26 @@ theorem trim_refuses (pp : UParams F) (s : Nat) (hs : pp.numVars < s) :
   rw [if_pos (by omega)]
 
 /-- `commit` with the key of a non-empty trapdoor: `g·f̃(t)`, tagged with the polynomial's `nv` -/
-theorem commit_wf (g h a : F) (ts : List F) (nv : Nat) (evals : List F)
+theorem commit_wf (g h a : F) (ts : List F) (evals : List F)
     (he : evals.length = 2 ^ (ts.length + 1)) :
-    commit (wfCK g h (a :: ts)) nv evals = .ok ⟨nv, g * mleEval evals (a :: ts)⟩ := by
+    commit (wfCK g h (a :: ts)) (ts.length + 1) evals
+      = .ok ⟨ts.length + 1, g * mleEval evals (a :: ts)⟩ := by
   unfold commit wfCK
-  simp only [tables]
+  simp only [tables, List.length_cons, ne_eq, not_true_eq_false, if_false]
   rw [dot_batchMul, dot_eqTable (a :: ts) evals (by simpa using he)]
 
-theorem open_wf (g h : F) (t evals z : List F) (hz : t.length ≤ z.length)
+/-- a polynomial whose number of variables differs from the key's is refused by `commit` -/
+theorem commit_wrong_nv (ck : CK F) (nv : Nat) (evals : List F) (h : nv ≠ ck.nv) :
+    commit ck nv evals = .error .abort := by
+  unfold commit; rw [if_pos h]
+
+theorem open_wf (g h : F) (t evals z : List F) (hz : z.length = t.length)
     (he : evals.length = 2 ^ t.length) :
     MLPC.open (wfCK g h t) t.length evals z = .ok (proofSpec h t z evals) := by
   unfold MLPC.open wfCK
   simp only
-  rw [if_neg (by simp), if_neg (by simp [he])]
-  exact openLoop_wf h t z evals hz he
+  rw [if_neg (by simp), if_neg (by simp [hz]), if_neg (by simp [he])]
+  exact openLoop_wf h t z evals (by omega) he
 
 /-- **Completeness on a well-formed key**, together with the exact defect of every neighbouring
 statement. -/
